@@ -174,7 +174,8 @@ func runProposal(out *TraceWriter, seed int64, run int, heights int) {
 		poolFor(n)
 		c.Emit(n.Start())
 	}
-	// drive with zero delays; between heights the clock may step back and the ledger timestamp may be anything
+	// drive with zero (or, in half of the runs, small) delays; the clock may step back and the ledger timestamp may be anything
+	slow := rng.Intn(2) == 0
 	pump := func() {
 		for k := 0; k < 400; k++ {
 			// deliver everything pending
@@ -183,6 +184,9 @@ func runProposal(out *TraceWriter, seed int64, run int, heights int) {
 				d := t.q[0]
 				t.q = t.q[1:]
 				n := c.byID[d.to]
+				if slow && rng.Intn(3) == 0 { // payloads take a little time: a receiver sees a proposal later than it was made
+					c.Clk.Now += int64(rng.Intn(40))
+				}
 				c.Emit(n.Receive(d.p))
 				progressed = true
 			}
@@ -257,6 +261,9 @@ func runProposal(out *TraceWriter, seed int64, run int, heights int) {
 		}
 		if rng.Intn(5) == 0 {
 			c.Clk.Now += int64(rng.Intn(int(inc) + 3))
+		}
+		if rng.Intn(6) == 0 { // the clock steps back INSIDE a height (after proposals / preparations of this height were seen)
+			c.Clk.Now -= int64(rng.Intn(3000))
 		}
 		c.Emit(best.Timeout(best.Timer.H, best.Timer.V))
 	}
